@@ -2012,6 +2012,14 @@ let coef_mono k0 k1 kopp m s t =
      | None -> k0)
   | _ -> k0
 
+(** val coef_poly :
+    'a1 -> 'a1 -> ('a1 -> 'a1 -> 'a1) -> ('a1 -> 'a1 -> 'a1) -> ('a1 -> 'a1)
+    -> 'a1 poly -> state0 -> state0 -> 'a1 **)
+
+let coef_poly k0 k1 kadd kmul kopp p s t =
+  fold_right (fun mc acc ->
+    kadd (kmul (snd mc) (coef_mono k0 k1 kopp (fst mc) s t)) acc) k0 p
+
 (** val ksum :
     'a1 -> ('a1 -> 'a1 -> 'a1) -> 'a2 list -> ('a2 -> 'a1) -> 'a1 **)
 
@@ -2492,6 +2500,13 @@ let model_lattice vo cfg h =
 let model_poly k1 kadd kmul kopp kzero vo idx cfg fixed h =
   prepare k1 kadd kmul kopp kzero idx fixed (model_lattice vo cfg h)
 
+(** val poly_table :
+    'a1 -> 'a1 -> ('a1 -> 'a1 -> 'a1) -> ('a1 -> 'a1 -> 'a1) -> ('a1 -> 'a1)
+    -> int -> 'a1 poly -> 'a1 list list **)
+
+let poly_table k0 k1 kadd kmul kopp m p =
+  tabulate m (coef_poly k0 k1 kadd kmul kopp p)
+
 (** val model_results :
     'a1 vops -> config -> (int, 'a1) op list -> (int, 'a1) obs outcome list **)
 
@@ -2563,6 +2578,17 @@ let q_splus_table tbl m cfg h =
 let q_sminus_table tbl m cfg h =
   sminus_table { qnum = Z0; qden = XH } { qnum = (Zpos XH); qden = XH } qadd
     qopp0 q_ops (idx_of tbl m) m cfg h
+
+(** val q_poly_table : int -> q poly -> q list list **)
+
+let q_poly_table m p =
+  poly_table { qnum = Z0; qden = XH } { qnum = (Zpos XH); qden = XH } qadd
+    qmul qopp0 m p
+
+(** val c_poly_table : int -> qC poly -> qC list list **)
+
+let c_poly_table m p =
+  poly_table c0 c1 cadd cmul copp m p
 
 type cop = (int, qC) op
 
